@@ -480,6 +480,24 @@ func genC17Context(t *rapid.T) *C17Context {
 			f.Tops = append(f.Tops[:pos], append([]*Top{top}, f.Tops[pos:]...)...)
 		}
 	}
+	// two scripts whose names differ by a trailing digit, the shorter one with two-digit sub-label numbers
+	// (Route1_12 / Route11_2): every script's sub-labels are its own
+	if rapid.IntRange(0, 3).Draw(t, "digitnames") == 0 {
+		mk := func(name string, n int) *Top {
+			b := &Block{}
+			for i := 0; i < n; i++ {
+				cond := eLeaf(&Leaf{Kind: "flag", Operand: []string{fmt.Sprintf("FLAG_R%d", i)}})
+				b.Stmts = append(b.Stmts, &Stmt{K: "if", If: &If{Arms: []*Arm{{Cond: cond, Body: &Block{Stmts: []*Stmt{sCmd(&Cmd{Name: fmt.Sprintf("r%d", i)})}}}}}})
+			}
+			b.Stmts = append(b.Stmts, sCmd(&Cmd{Name: "release"}))
+			return &Top{K: "script", Script: &Script{Name: name, Body: b}}
+		}
+		d := rapid.IntRange(1, 2).Draw(t, "digit")
+		for _, top := range []*Top{mk("Route1", rapid.IntRange(4, 11).Draw(t, "longifs")), mk(fmt.Sprintf("Route1%d", d), rapid.IntRange(1, 4).Draw(t, "shortifs"))} {
+			pos := rapid.IntRange(0, len(f.Tops)).Draw(t, "digitpos")
+			f.Tops = append(f.Tops[:pos:pos], append([]*Top{top}, f.Tops[pos:]...)...)
+		}
+	}
 	return &C17Context{File: f}
 }
 
@@ -489,7 +507,7 @@ func init() {
 	register("C17", "TestC17_Context", checkC17Context, c17ContextSrc)
 }
 
-const c17Rule = "(1) repeatability: whole files (valid, and made invalid by deleting / replacing a token or truncating) under drawn option sets (optimize, line markers, switches, CLI line length, several font configs, unknown font ids whose error lists the font table, lint mode) are compiled 5 times in one process: byte-identical outputs / errors; one parsed program emitted three times (optimize off, on, off) gives the outputs of separate compilations; (2) history independence: a history of 2-12 compilations drawn from a pool of 2-5 (program, options) pairs is run in one process and every result must equal the result of the same compilation run FIRST in a fresh process (the test binary re-executes itself); (3) context independence: every top-level statement of a file is also compiled alone (with the constants before it); its code, with hoisted labels renamed by content, must occur as one contiguous run in the output of the whole file and every hoisted block it defines must exist there with the same content. non-trivial = (1) >= 3 labelled blocks or an error, (2) >= 2 option sets and a failing compilation in the history, (3) >= 3 statements with hoisted data; distinct by input"
+const c17Rule = "(1) repeatability: whole files (valid, and made invalid by deleting / replacing a token or truncating) under drawn option sets (optimize, line markers, switches, CLI line length, several font configs, unknown font ids whose error lists the font table, lint mode) are compiled 5 times in one process: byte-identical outputs / errors; one parsed program emitted three times (optimize off, on, off) gives the outputs of separate compilations; (2) history independence: a history of 2-12 compilations drawn from a pool of 2-5 (program, options) pairs is run in one process and every result must equal the result of the same compilation run FIRST in a fresh process (the test binary re-executes itself); (3) context independence: every top-level statement of a file is also compiled alone (with the constants before it); its code, with hoisted labels renamed by content, must occur as one contiguous run in the output of the whole file and every hoisted block it defines must exist there with the same content (files may hold a script pair named Route1 / Route1<d> with two-digit sub-label numbers in the shorter-named one). non-trivial = (1) >= 3 labelled blocks or an error, (2) >= 2 option sets and a failing compilation in the history, (3) >= 3 statements with hoisted data; distinct by input"
 
 func TestC17_Regress(t *testing.T) { runRegress(t, "C17") }
 
